@@ -629,6 +629,9 @@ Qed.
 (* ====================================================================== *)
 Definition set_ph (g : ghost) (ph : phase) : ghost := mkG (gD0 g) (gD1 g) (gW g) (gown g) (ginv g) ph.
 
+Lemma gD_set_ph g ph b : gD (set_ph g ph) b = gD g b.
+Proof. reflexivity. Qed.
+
 Lemma holds_contrib o pc : holds pc = true ->
   (forall b, cA b (Some (o, pc)) = 0) /\ (forall b j, cB b j (Some (o, pc)) = 0) /\ (forall b, cS b (Some (o, pc)) = []).
 Proof. destruct pc; cbn [holds]; intros H; try discriminate H; repeat split. Qed.
@@ -728,7 +731,7 @@ Proof.
     eapply step_hold; eauto; try reflexivity.
     + destruct h as [bn hb tk s0 s1 mx]; destruct hb; reflexivity.
     + destruct h as [bn hb tk s0 s1 mx]; destruct hb; reflexivity.
-    + cbn [pcinv set_ph gown ginv gph]. tauto.
+    + cbn [pcinv]. Show. rewrite gD_set_ph. cbn [set_ph gown ginv gph]. tauto.
     + destruct HS as [B1 TK CH CC BH BC SH SC ZR FR CD CL].
       rewrite Hph in *. destruct h as [bn hb tk s0 s1 mx]. cbn [hot] in *.
       destruct hb; cbn [negb hget hput hot tickets set0 set1 mtx h_bnds s_sum s_cnt s_bk s_zero gD pmc pzc pms pzs pmb pzb PhM0] in *.
